@@ -712,6 +712,90 @@ Proof.
   - exists 1%nat. split; [lia|]. vm_compute. reflexivity.
 Qed.
 
+(* ================================================================== *)
+(* the weaker lockstep: block n may have been voted before               *)
+(* ================================================================== *)
+(* A weak lockstep state: every honest node waits in view V with block store at n; no good commit
+   certificate for a number >= n is known; the honest high votes are for blocks up to n (block n
+   itself may have been voted in an earlier view that did not complete), the honest high commit
+   certificates are for block n-1; the network holds the single proposal of an honest leader of V
+   -- for the new block n or the forced re-proposal of a voted block n -- or no verifying
+   proposal for V if that leader is Byzantine.  From such a state, with the block-fetch oracle
+   answering during the rounds, every honest node stores block n within 2*(nbyz+1) rounds. *)
+Definition C06_progress_from_wlockstep : Prop :=
+  forall P pay fetch (nbyz : nat), params_ok P -> env_ok P pay -> forall s V n, preach P s ->
+  headroom P s (Z.of_nat nbyz + 2) -> 0 < V -> wlockstep P pay s V n -> byz_run P V nbyz ->
+  fetch_ok_run P pay fetch s (2 * (nbyz + 1)) ->
+  exists r, (1 <= r <= nbyz + 1)%nat /\
+    forall k, honestb P k = true ->
+      up (sync_rounds P pay fetch (2 * r) s) k /\ n < height (sync_rounds P pay fetch (2 * r) s) k.
+
+Theorem progress_from_wlockstep_holds : C06_progress_from_wlockstep.
+Proof.
+  intros P pay fetch nbyz HP He s V n Hr (Hd & Hs) HV HLS (i & Hi & Hhi) Hfr.
+  assert (HdV : p_first P + V + (Z.of_nat nbyz + 2) < U64).
+  { destruct HLS as (_ & Hlock & _). set (k0 := cleader (pcfg P 0) (V + Z.of_nat i)) in *.
+    destruct (Hlock k0 Hhi) as (Hu & Hv & _). specialize (Hd k0 Hhi).
+    rewrite (up_dview P HP s k0 Hr Hhi Hu), Hv in Hd. exact Hd. }
+  assert (Hf : 0 <= p_first P) by apply He.
+  exact (progress_from_wlockstep P HP pay fetch He (U64 - 2) ltac:(lia) nbyz s V n Hr HV ltac:(lia) ltac:(lia)
+           (fun m Hm => ltac:(specialize (Hs m Hm); lia)) HLS Hfr (ex_intro _ i (conj Hi Hhi))).
+Qed.
+
+(* (c) for the weak lockstep: weaker than C06_reaches_lockstep, and still enough for
+   C06_progress_partial.  NOT PROVED. *)
+Definition C06_reaches_wlockstep (R0 : nat) : Prop :=
+  forall P pay fetch (nbyz : nat), params_ok P -> env_ok P pay -> forall s, preach P s ->
+  headroom P s (2 * Z.of_nat nbyz + Z.of_nat R0 + 4) ->
+  fetch_ok_run P pay fetch s (2 * nbyz + R0 + 2) ->
+  (forall V, byz_run P V nbyz) ->
+  exists V n, 0 < V /\ wlockstep P pay (sync_rounds P pay fetch R0 s) V n /\
+              headroom P (sync_rounds P pay fetch R0 s) (Z.of_nat nbyz + 2).
+
+Lemma reaches_lockstep_weak R0 : C06_reaches_lockstep R0 -> C06_reaches_wlockstep R0.
+Proof.
+  intros Hc P pay fetch nbyz HP He s Hr Hh Hf Hb.
+  destruct (Hc P pay fetch nbyz HP He s Hr Hh Hf Hb) as (V & n & HV & HLS & Hh0).
+  exists V, n. split; [exact HV|]. split; [apply (lockstep_weak P pay fetch); exact HLS|exact Hh0].
+Qed.
+
+Theorem progress_of_reaches_wlockstep (R0 : nat) : C06_reaches_wlockstep R0 ->
+  forall P pay fetch (nbyz : nat), params_ok P -> env_ok P pay -> forall s, preach P s ->
+  headroom P s (2 * Z.of_nat nbyz + Z.of_nat R0 + 4) ->
+  fetch_ok_run P pay fetch s (2 * nbyz + R0 + 2) ->
+  (forall V, byz_run P V nbyz) ->
+  forall k, honestb P k = true ->
+    height s k < height (sync_rounds P pay fetch (R0 + 2 * (nbyz + 1)) s) k.
+Proof.
+  intros Hc P pay fetch nbyz HP He s Hr Hh Hf Hb k Hk.
+  destruct (Hc P pay fetch nbyz HP He s Hr Hh Hf Hb) as (V & n & HV & HLS & Hh0).
+  set (s0 := sync_rounds P pay fetch R0 s) in *.
+  assert (Hr0 : preach P s0) by (apply sync_rounds_reach; exact Hr).
+  assert (Hf0 : fetch_ok_run P pay fetch s0 (2 * (nbyz + 1))).
+  { intros r Hlt. specialize (Hf (R0 + r)%nat ltac:(lia)). unfold s0.
+    rewrite (sync_rounds_add P pay fetch R0) in Hf. exact Hf. }
+  destruct (progress_from_wlockstep_holds P pay fetch nbyz HP He s0 V n Hr0 Hh0 HV HLS (Hb V) Hf0) as (r & Hrr & Hall).
+  destruct (Hall k Hk) as [_ Hgt].
+  pose proof (wlockstep_height P HP pay fetch s0 V n Hr0 HLS k Hk) as Hn.
+  pose proof (height_mono_rounds P HP pay fetch R0 s k Hr Hk) as Hm1. fold s0 in Hm1.
+  assert (E : sync_rounds P pay fetch (R0 + 2 * (nbyz + 1)) s =
+              sync_rounds P pay fetch (2 * (nbyz + 1) - 2 * r) (sync_rounds P pay fetch (2 * r) s0)).
+  { unfold s0. rewrite <- !(sync_rounds_add P pay fetch). f_equal. lia. }
+  rewrite E.
+  pose proof (height_mono_rounds P HP pay fetch (2 * (nbyz + 1) - 2 * r) (sync_rounds P pay fetch (2 * r) s0) k
+                (sync_rounds_reach P pay fetch _ s0 Hr0) Hk) as Hm2.
+  unfold height in *. lia.
+Qed.
+
+Corollary progress_partial_of_reaches_wlockstep : C06_reaches_wlockstep 4 -> C06_progress_partial.
+Proof.
+  intros Hc P pay fetch nbyz HP He s Hr Hh Hf Hb k Hk.
+  replace (2 * nbyz + 6)%nat with (4 + 2 * (nbyz + 1))%nat by lia.
+  apply (progress_of_reaches_wlockstep 4 Hc P pay fetch nbyz HP He s Hr); try assumption.
+  - replace (2 * Z.of_nat nbyz + Z.of_nat 4 + 4) with (2 * Z.of_nat nbyz + 8) by lia. exact Hh.
+  - replace (2 * nbyz + 4 + 2)%nat with (2 * nbyz + 6)%nat by lia. exact Hf.
+Qed.
+
 (* the cached-payload hypothesis of the re-proposal commit theorem follows, in reachable states,
    from the absence of a good commit certificate for a block number >= n (ProtocolLiveAvail): the
    timeout certificate that forces the re-proposal has an honest reporter of a vote for (n, h);
@@ -756,6 +840,47 @@ Qed.
 Theorem light_uncertified : forall P, params_ok P -> forall s n,
   weight (cweights (p_C P)) (voted_bits P (g_soup s) n) < quorum (p_C P) -> uncertified P s n.
 Proof. intros P HP s n Hl. exact (light_no_cqc P HP (g_soup s) n Hl). Qed.
+
+(* progress from a mixed-phase state: every honest node is in view V and has not voted in it (some
+   may have timed out already), no verifying proposal for V is on the network, the timed-out
+   honest validators and the Byzantine ones do not weigh a quorum, nothing at or above block n is
+   certified, nothing above block n is voted (states and the timeout votes of view V already on
+   the network).  Two rounds later the network is in a weak lockstep state for view V+1, and
+   block n is stored by every honest node within 2 + 2*(nbyz+1) rounds. *)
+Definition C06_progress_from_mixed : Prop :=
+  forall P pay fetch (nbyz : nat), params_ok P -> env_ok P pay -> forall s V n, preach P s ->
+  headroom P s (Z.of_nat nbyz + 4) -> 0 < V -> p_first P <= n ->
+  unvoted P s V n -> no_proposal P s V -> timed_out_light P s V -> uncertified P s n ->
+  (forall k, honestb P k = true -> tidy_node_b P n (n + 1) (n_live (g_node s k))) ->
+  (forall h t, honestb P h = true -> In {| m_key := h; m_sig_ok := true; m_msg := MTimeout t |} (g_soup s) ->
+     vnum (tview t) = V -> tidy_report_b P n (n + 1) t) ->
+  byz_run P (V + 1) nbyz -> fetch_ok_run P pay fetch s (2 + 2 * (nbyz + 1)) ->
+  wlockstep P pay (sync_rounds P pay fetch 2 s) (V + 1) n /\
+  exists r, (1 <= r <= nbyz + 1)%nat /\
+    forall k, honestb P k = true ->
+      up (sync_rounds P pay fetch (2 + 2 * r) s) k /\ n < height (sync_rounds P pay fetch (2 + 2 * r) s) k.
+
+Theorem progress_from_mixed_holds : C06_progress_from_mixed.
+Proof.
+  intros P pay fetch nbyz HP He s V n Hr (Hd & Hs) HV Hfn Hw Hnp Hlight Hunc HX HXT (i & Hi & Hhi) Hfr.
+  assert (Hk0 : exists k0, honestb P k0 = true) by (eexists; exact Hhi). destruct Hk0 as [k0 Hk0].
+  assert (HdV : p_first P + V + (Z.of_nat nbyz + 4) < U64).
+  { destruct (Hw k0 Hk0) as (Hu & Hv & _). specialize (Hd k0 Hk0).
+    rewrite (up_dview P HP s k0 Hr Hk0 Hu), Hv in Hd. exact Hd. }
+  assert (Hf : 0 <= p_first P) by apply He.
+  destruct (mixed_wlockstep P HP pay fetch He (U64 - 2) s V n ltac:(lia) Hr HV ltac:(lia) ltac:(lia)
+              (fun m Hm => ltac:(specialize (Hs m Hm); lia)) Hfn
+              (fun k1 Hk1 => ltac:(destruct (Hw k1 Hk1) as (A & B & C & D); unfold height in D; repeat split; auto; lia))
+              Hnp (light_no_tqc P HP (g_soup s) V Hlight) (conj Hunc HX)
+              (fun m t0 Hin Hsg Hh Em EV => ltac:(rewrite (sg_eta m Hsg), Em in Hin; exact (HXT _ t0 Hh Hin EV))))
+    as (Hr2 & Hsb2 & HLS2).
+  split; [exact HLS2|].
+  assert (Hfr2 : fetch_ok_run P pay fetch (sync_rounds P pay fetch 2 s) (2 * (nbyz + 1))).
+  { intros r Hlt. specialize (Hfr (2 + r)%nat ltac:(lia)). rewrite (sync_rounds_add P pay fetch 2) in Hfr. exact Hfr. }
+  destruct (progress_from_wlockstep P HP pay fetch He (U64 - 2) ltac:(lia) nbyz _ (V + 1) n Hr2 ltac:(lia) ltac:(lia) ltac:(lia)
+              Hsb2 HLS2 Hfr2 (ex_intro _ i (conj Hi Hhi))) as (r & Hrr & Hall).
+  exists r. split; [exact Hrr|]. intros k Hk. rewrite (sync_rounds_add P pay fetch 2). exact (Hall k Hk).
+Qed.
 
 Definition C06_view_recommits_avail : Prop :=
   forall P pay fetch, params_ok P -> env_ok P pay -> forall s V n h, preach P s -> headroom P s 4 ->
@@ -855,13 +980,13 @@ Proof.
   exists (sync_round ex_P6 ex_pay (find_cert ex_P6) s0). split; [apply sync_round_reach; exact Hr0|exact Hc].
 Qed.
 
-Lemma ex_recommit_hyps : exists s, preach ex_P6 s /\ headroom ex_P6 s 4 /\ waiting ex_P6 s 3 0 /\
+Lemma recommit_of_chk s : recommit_chk s = true -> headroom ex_P6 s 4 /\ waiting ex_P6 s 3 0 /\
   reproposal_on_network ex_P6 s 3 0 100 /\ uncertified ex_P6 s 0 /\
   (exists k0, honestb ex_P6 k0 = true /\ cache_has (r_cache (n_live (g_node s k0))) 0 100 = true) /\
   (exists k1, honestb ex_P6 k1 = true /\ cache_has (r_cache (n_live (g_node s k1))) 0 100 = false) /\
   fetch_ok_at ex_P6 (find_cert ex_P6) (sync_point ex_P6 ex_pay (sync_round ex_P6 ex_pay (find_cert ex_P6) s)).
 Proof.
-  destruct ex_recommit_s as (s & Hr & Hc). unfold recommit_chk in Hc.
+  intros Hc. unfold recommit_chk in Hc.
   apply andb_true_iff in Hc. destruct Hc as [Hc C6].
   apply andb_true_iff in Hc. destruct Hc as [Hc C5].
   apply andb_true_iff in Hc. destruct Hc as [Hc C4].
@@ -876,7 +1001,7 @@ Proof.
     apply andb_true_iff in Hb. destruct Hb as [Hb B3]. apply andb_true_iff in Hb. destruct Hb as [B1 B2].
     split; [apply Z.ltb_lt; exact B1|]. split; [exact B2|]. split; [apply Z.eqb_eq; exact B3|].
     split; [destruct (r_phase (n_live (g_node s k))); try discriminate; reflexivity|apply Z.eqb_eq; exact B5]. }
-  exists s. split; [exact Hr|]. split; [|split; [|split; [|split; [|split; [|split]]]]].
+  split; [|split; [|split; [|split; [|split; [|split]]]]].
   - split; [intros k Hk0; apply (Hk k Hk0)|]. intros m Hin. apply Z.ltb_lt. exact (Forall_forallb _ _ C2 m Hin).
   - intros k Hk0. destruct (Hk k Hk0) as (_ & A & B & C & D). auto.
   - apply rponb_spec. exact C3.
@@ -884,6 +1009,82 @@ Proof.
   - exists 1. split; [reflexivity|exact C4].
   - exists 5. split; [reflexivity|]. apply negb_true_iff. exact C5.
   - apply fetch_ok_atb_spec. exact C6.
+Qed.
+
+Lemma ex_recommit_hyps : exists s, preach ex_P6 s /\ headroom ex_P6 s 4 /\ waiting ex_P6 s 3 0 /\
+  reproposal_on_network ex_P6 s 3 0 100 /\ uncertified ex_P6 s 0 /\
+  (exists k0, honestb ex_P6 k0 = true /\ cache_has (r_cache (n_live (g_node s k0))) 0 100 = true) /\
+  (exists k1, honestb ex_P6 k1 = true /\ cache_has (r_cache (n_live (g_node s k1))) 0 100 = false) /\
+  fetch_ok_at ex_P6 (find_cert ex_P6) (sync_point ex_P6 ex_pay (sync_round ex_P6 ex_pay (find_cert ex_P6) s)).
+Proof.
+  destruct ex_recommit_s as (s & Hr & Hc). exists s. split; [exact Hr|exact (recommit_of_chk s Hc)].
+Qed.
+
+(* the same state is a weak lockstep state for view 3 (honest leader, validator 4) and block 0,
+   with the forced re-proposal pending *)
+Definition tidy1b (P : params) (s : gstate) (n k : Z) : bool :=
+  match r_high_vote (n_live (g_node s k)) with None => true | Some c => hnum (cprop c) <? n + 1 end &&
+  match r_high_cqc (n_live (g_node s k)) with None => n =? p_first P | Some q => hnum (cprop (qmsg q)) =? n - 1 end.
+Lemma tidy1b_spec P s n k : tidy1b P s n k = true -> tidy_node_b P n (n + 1) (n_live (g_node s k)).
+Proof.
+  unfold tidy1b. intros H. apply andb_true_iff in H. destruct H as [H1 H2]. split.
+  - intros c Hc. unfold hv_ok_b in *. rewrite Hc in H1. apply Z.ltb_lt. exact H1.
+  - unfold cq_ok. destruct (r_high_cqc (n_live (g_node s k))) as [q|].
+    + right. exists q. split; [reflexivity|apply Z.eqb_eq; exact H2].
+    + left. split; [apply Z.eqb_eq; exact H2|reflexivity].
+Qed.
+
+Lemma wlockstep_of_checks P pay s V n h : p_first P <= n -> waiting P s V n ->
+  reproposal_on_network P s V n h -> uncertified P s n ->
+  honestb P (cleader (pcfg P 0) V) = true -> forallb (tidy1b P s n) (honest_keys P) = true ->
+  wlockstep P pay s V n.
+Proof.
+  intros Hfn Hw (j & mv & Hjv & Hmv & Hjver & Himp & Hin & Huq) Hunc HL Ht.
+  split; [exact Hfn|]. split; [|split; [|split]].
+  - intros k Hk. destruct (Hw k Hk) as (A & B & C & D). unfold height in D. repeat split; auto. lia.
+  - split; [exact Hunc|].
+    intros k Hk. apply tidy1b_spec. rewrite forallb_forall in Ht. apply Ht. apply hon_in_honest_keys. exact Hk.
+  - intros _. right. exists h, j, mv. split; [exact Hjv|]. split; [exact Hmv|]. split; [exact Hjver|]. split; [exact Himp|]. split; [exact Hin|exact Huq].
+  - intros H. rewrite HL in H. discriminate.
+Qed.
+
+Definition wlock_chk (s : gstate) : bool :=
+  recommit_chk s && forallb (tidy1b ex_P6 s 0) (honest_keys ex_P6) &&
+  honestb ex_P6 (cleader (pcfg ex_P6 0) 3) &&
+  fetch_ok_runb ex_P6 ex_pay (find_cert ex_P6) s 2.
+
+Lemma ex_wlock_obs :
+  option_map (fun s0 => wlock_chk (sync_round ex_P6 ex_pay (find_cert ex_P6) s0))
+    (xrun ex_P6 (sync_rounds ex_P6 ex_pay (find_cert ex_P6) 3 (ginit ex_P6)) ex_ops_repropose) = Some true.
+Proof. vm_compute. reflexivity. Qed.
+
+Lemma ex_wlock_s : exists s, preach ex_P6 s /\ wlock_chk s = true.
+Proof.
+  destruct (xrun_some_reach_from ex_P6 _ _ _ true (sync_rounds_reach ex_P6 ex_pay (find_cert ex_P6) 3 _ (PReachInit ex_P6))
+              ex_wlock_obs) as (s0 & Hr0 & Hc).
+  exists (sync_round ex_P6 ex_pay (find_cert ex_P6) s0). split; [apply sync_round_reach; exact Hr0|exact Hc].
+Qed.
+
+Lemma ex_wlockstep : exists s, preach ex_P6 s /\ headroom ex_P6 s (Z.of_nat 0 + 2) /\
+  wlockstep ex_P6 ex_pay s 3 0 /\ byz_run ex_P6 3 0 /\
+  fetch_ok_run ex_P6 ex_pay (find_cert ex_P6) s (2 * (0 + 1)) /\
+  repending ex_P6 s 3 0.
+Proof.
+  destruct ex_wlock_s as (s & Hr & Hc). unfold wlock_chk in Hc.
+  apply andb_true_iff in Hc. destruct Hc as [Hc C4].
+  apply andb_true_iff in Hc. destruct Hc as [Hc C3].
+  apply andb_true_iff in Hc. destruct Hc as [C1 C2].
+  destruct (recommit_of_chk s C1) as ((Hd & Hs) & Hw & Hrp & Hunc & _).
+  assert (HLS : wlockstep ex_P6 ex_pay s 3 0).
+  { apply (wlockstep_of_checks ex_P6 ex_pay s 3 0 100); try assumption. vm_compute. discriminate. }
+  exists s. split; [exact Hr|]. split; [|split; [exact HLS|split; [|split]]].
+  - split; [intros k Hk; specialize (Hd k Hk); cbn [Z.of_nat Z.add] in *; lia|].
+    intros m Hm. specialize (Hs m Hm). cbn [Z.of_nat Z.add] in *. lia.
+  - exists 0%nat. split; [lia|]. exact C3.
+  - apply fetch_ok_runb_spec. exact C4.
+  - destruct HLS as (_ & _ & _ & Hp & _). destruct (Hp C3) as [(j & mv & _ & _ & _ & Himp & Hin & Huq)|H]; [|exact H].
+    exfalso. destruct Hrp as (j2 & mv2 & Hjv2 & Hmv2 & Hjver2 & Himp2 & Hin2 & Huq2).
+    destruct (Huq _ None j2 mv2 Hin2 eq_refl eq_refl eq_refl Hjv2 Hmv2 Hjver2) as [E _]. discriminate E.
 Qed.
 
 (* a mixed-phase scenario: after the first round of the six-validator committee (view 1, silent
@@ -928,12 +1129,11 @@ Definition mixed_chk (s : gstate) : bool :=
 Lemma ex_mixed_obs : option_map mixed_chk (xrun ex_P6 ex_s6 ex_ops_mixed) = Some true.
 Proof. vm_compute. reflexivity. Qed.
 
-Lemma ex_mixed_hyps : exists s, preach ex_P6 s /\ headroom ex_P6 s 4 /\ unvoted ex_P6 s 1 0 /\
+Lemma mixed_of_chk s : mixed_chk s = true -> headroom ex_P6 s 4 /\ unvoted ex_P6 s 1 0 /\
   no_proposal ex_P6 s 1 /\ timed_out_light ex_P6 s 1 /\
   r_phase (n_live (g_node s 1)) = PTimeout /\ r_phase (n_live (g_node s 4)) = Prepare.
 Proof.
-  destruct (xrun_some_reach_from ex_P6 _ _ mixed_chk true (proj1 ex_view_times_out_hyps) ex_mixed_obs) as (s & Hr & Hc).
-  unfold mixed_chk in Hc.
+  intros Hc. unfold mixed_chk in Hc.
   apply andb_true_iff in Hc. destruct Hc as [Hc C7].
   apply andb_true_iff in Hc. destruct Hc as [Hc C6].
   apply andb_true_iff in Hc. destruct Hc as [Hc C5].
@@ -948,13 +1148,80 @@ Proof.
     apply andb_true_iff in Hb. destruct Hb as [Hb B3]. apply andb_true_iff in Hb. destruct Hb as [B1 B2].
     split; [apply Z.ltb_lt; exact B1|]. split; [exact B2|]. split; [apply Z.eqb_eq; exact B3|].
     split; [intros E; rewrite E in B4; discriminate|apply Z.eqb_eq; exact B5]. }
-  exists s. split; [exact Hr|]. split; [|split; [|split; [|split]]].
+  split; [|split; [|split; [|split]]].
   - split; [intros k Hk0; apply (Hk k Hk0)|]. intros m Hin. apply Z.ltb_lt. exact (Forall_forallb _ _ C2 m Hin).
   - intros k Hk0. destruct (Hk k Hk0) as (_ & A & B & C & D). auto.
   - apply no_proposal_by_filter. destruct (filter is_prop (g_soup s)); [reflexivity|discriminate].
   - apply Z.ltb_lt. exact C4.
   - destruct (r_phase (n_live (g_node s 1))); try discriminate.
     destruct (r_phase (n_live (g_node s 4))); try discriminate. split; reflexivity.
+Qed.
+
+Lemma ex_mixed_hyps : exists s, preach ex_P6 s /\ headroom ex_P6 s 4 /\ unvoted ex_P6 s 1 0 /\
+  no_proposal ex_P6 s 1 /\ timed_out_light ex_P6 s 1 /\
+  r_phase (n_live (g_node s 1)) = PTimeout /\ r_phase (n_live (g_node s 4)) = Prepare.
+Proof.
+  destruct (xrun_some_reach_from ex_P6 _ _ mixed_chk true (proj1 ex_view_times_out_hyps) ex_mixed_obs) as (s & Hr & Hc).
+  exists s. split; [exact Hr|exact (mixed_of_chk s Hc)].
+Qed.
+
+(* the same state satisfies the hypotheses of the progress theorem from mixed-phase states *)
+Definition tidy_timeoutsb (P : params) (s : gstate) (V n : Z) : bool :=
+  forallb (fun m => match m_msg m with
+                    | MTimeout t =>
+                        negb (m_sig_ok m && honestb P (m_key m) && (vnum (tview t) =? V)) ||
+                        (match thv t with None => true | Some c => hnum (cprop c) <? n + 1 end &&
+                         match thq t with None => n =? p_first P | Some q => hnum (cprop (qmsg q)) =? n - 1 end)
+                    | _ => true
+                    end) (g_soup s).
+Lemma tidy_timeoutsb_spec P s V n : tidy_timeoutsb P s V n = true ->
+  forall h t, honestb P h = true -> In {| m_key := h; m_sig_ok := true; m_msg := MTimeout t |} (g_soup s) ->
+    vnum (tview t) = V -> tidy_report_b P n (n + 1) t.
+Proof.
+  intros Hb h t Hh Hin E. unfold tidy_timeoutsb in Hb. rewrite forallb_forall in Hb. specialize (Hb _ Hin).
+  cbn [m_sig_ok m_key m_msg] in Hb. rewrite Hh in Hb. apply Z.eqb_eq in E. rewrite E in Hb. cbn [andb negb orb] in Hb.
+  apply andb_true_iff in Hb. destruct Hb as [H1 H2]. split.
+  - intros c Hc. rewrite Hc in H1. apply Z.ltb_lt. exact H1.
+  - destruct (thq t) as [q|].
+    + right. exists q. split; [reflexivity|apply Z.eqb_eq; exact H2].
+    + left. split; [apply Z.eqb_eq; exact H2|reflexivity].
+Qed.
+
+Definition mixed2_chk (s : gstate) : bool :=
+  mixed_chk s &&
+  (weight (cweights (p_C ex_P6)) (voted_bits ex_P6 (g_soup s) 0) <? quorum (p_C ex_P6)) &&
+  forallb (tidy1b ex_P6 s 0) (honest_keys ex_P6) && tidy_timeoutsb ex_P6 s 1 0 &&
+  honestb ex_P6 (cleader (pcfg ex_P6 0) 2) &&
+  fetch_ok_runb ex_P6 ex_pay (find_cert ex_P6) s 4.
+
+Lemma ex_mixed2_obs : option_map mixed2_chk (xrun ex_P6 ex_s6 ex_ops_mixed) = Some true.
+Proof. vm_compute. reflexivity. Qed.
+
+Lemma ex_progress_from_mixed_hyps : exists s, preach ex_P6 s /\ headroom ex_P6 s (Z.of_nat 0 + 4) /\
+  p_first ex_P6 <= 0 /\ unvoted ex_P6 s 1 0 /\ no_proposal ex_P6 s 1 /\ timed_out_light ex_P6 s 1 /\
+  uncertified ex_P6 s 0 /\
+  (forall k, honestb ex_P6 k = true -> tidy_node_b ex_P6 0 (0 + 1) (n_live (g_node s k))) /\
+  (forall h t, honestb ex_P6 h = true -> In {| m_key := h; m_sig_ok := true; m_msg := MTimeout t |} (g_soup s) ->
+     vnum (tview t) = 1 -> tidy_report_b ex_P6 0 (0 + 1) t) /\
+  byz_run ex_P6 (1 + 1) 0 /\ fetch_ok_run ex_P6 ex_pay (find_cert ex_P6) s (2 + 2 * (0 + 1)) /\
+  r_phase (n_live (g_node s 1)) = PTimeout /\ r_phase (n_live (g_node s 4)) = Prepare.
+Proof.
+  destruct (xrun_some_reach_from ex_P6 _ _ mixed2_chk true (proj1 ex_view_times_out_hyps) ex_mixed2_obs) as (s & Hr & Hc).
+  unfold mixed2_chk in Hc.
+  apply andb_true_iff in Hc. destruct Hc as [Hc C6].
+  apply andb_true_iff in Hc. destruct Hc as [Hc C5].
+  apply andb_true_iff in Hc. destruct Hc as [Hc C4].
+  apply andb_true_iff in Hc. destruct Hc as [Hc C3].
+  apply andb_true_iff in Hc. destruct Hc as [C1 C2].
+  destruct (mixed_of_chk s C1) as (Hh & Hw & Hnp & Hl & Hph).
+  exists s. split; [exact Hr|]. split; [exact Hh|]. split; [vm_compute; discriminate|]. split; [exact Hw|].
+  split; [exact Hnp|]. split; [exact Hl|]. split; [|split; [|split; [|split; [|split]]]].
+  - unfold uncertified. apply (light_no_cqc ex_P6 ex_P6_ok (g_soup s) 0). apply Z.ltb_lt. exact C2.
+  - intros k Hk. apply (tidy1b_spec ex_P6 s 0 k). rewrite forallb_forall in C3. apply C3. apply hon_in_honest_keys. exact Hk.
+  - exact (tidy_timeoutsb_spec ex_P6 s 1 0 C4).
+  - exists 0%nat. split; [lia|]. exact C5.
+  - apply fetch_ok_runb_spec. exact C6.
+  - exact Hph.
 Qed.
 
 (* ================================================================== *)
